@@ -118,6 +118,21 @@ def generate(rng, tier):
             for m in rng.sample([0, 1, 2], 3) + [None]:
                 it2 = [items[0] if m is None else c06.P("M", "IntP", m), items[1]]
                 yield f"ptype {sx(pt)} {hx(data)} {pos} {sx(it2)}", "ptype-history"
+    # calibration results that are exactly zero (still a calibrated float, not "no calibration")
+    for _ in range(30 if tier == "quick" else 1500):
+        r = rng.choice([0, 5, 64, 200])
+        k = rng.choice([Fraction(1), Fraction(1, 2), Fraction(2), Fraction(-1)])
+        zero_poly = ["poly", [fnum(-k * r), "0"], [fnum(k), "1"]]
+        zero_spline = ["spline", rng.choice(["0", "1"]), "0", [fnum(Fraction(r)), fnum(Fraction(0))],
+                       [fnum(Fraction(r + 16)), fnum(Fraction(8))]]
+        cal = rng.choice([zero_poly, zero_spline])
+        if rng.random() < 0.5:
+            enc = int_enc(8, "unsigned", MSB, cal, [])
+        else:
+            enc = int_enc(8, "unsigned", MSB, "-", [["ctx", [c06.cmp_sx("M", "==", "1", True)], cal]])
+        items = [c06.P("M", "IntP", 1)]
+        yield f"ptype {sx(['pt', S('T'), rng.choice(['plain', 'bool']), enc])} {hx(bytes([r, 1, 2, 3]))} 0 {sx(items)}", \
+            "ptype-zero-result"
     # booleans over float / string / binary encodings; enum over float and string encodings
     for _ in range(40 if tier == "quick" else 3000):
         data = rng.choice([b"\x00" * 4, rng.randbytes(4), b"\x00\x00\x00\x01", b"\x80\x00\x00\x00", b"AB\x00\x00"])
